@@ -1,6 +1,13 @@
 #!/bin/bash
-# maintainer tool: re-record baseline_obligations.json for the given (or all claimed) properties on the current tree
+# maintainer tool: re-record baseline_obligations.json for the given (or all claimed) properties on the current tree.
+# Run it on an otherwise idle machine.  A property whose run is not fully discharged (apart from listed known
+# findings) is reported loudly: recording an undischarged obligation would let it pass as "undecided" later.
 cd /verif
 PROPS="$@"
 [ -z "$PROPS" ] && PROPS=$(python3 -c "import json;print(' '.join(c['property_id'] for c in json.load(open('MANIFEST.json'))['checks']))")
-for p in $PROPS; do ./bin/govc -prop $p -write-baseline -no-evidence | tail -1; done
+for p in $PROPS; do
+  line=$(./bin/govc -prop $p -write-baseline -no-evidence | tail -1)
+  echo "$line"
+  o=$(echo "$line" | sed -n 's/.*obligations=\([0-9]*\).*/\1/p'); d=$(echo "$line" | sed -n 's/.*discharged=\([0-9]*\).*/\1/p'); k=$(echo "$line" | sed -n 's/.*known=\([0-9]*\).*/\1/p')
+  if [ "$((d + k))" != "$o" ]; then echo "WARNING: $p baseline recorded with $((o - d - k)) undischarged obligation(s) — fix the contract or the proof and re-run"; fi
+done
